@@ -127,7 +127,13 @@ func childEnum() {
 		nb = 40
 	}
 	sites := rn.sites(seededRand(rn.seed, "bursts/"+name), nb)
-	if start == 0 {
+	sliceK, sliceN := 0, 1
+	if v := os.Getenv("VERIF_C13_SLICE"); v != "" {
+		if _, err := fmt.Sscanf(v, "%d/%d", &sliceK, &sliceN); err != nil || sliceN < 1 {
+			sliceK, sliceN = 0, 1
+		}
+	}
+	if start == 0 && sliceK == 0 {
 		total := int64(0)
 		kinds := map[string]int{}
 		for i, n := range rn.learn.N {
@@ -149,6 +155,9 @@ func childEnum() {
 	errSites, done := 0, 0
 	for idx := start; idx < len(sites); idx++ {
 		st := sites[idx]
+		if idx%sliceN != sliceK {
+			continue
+		}
 		if only != "" && !strings.Contains(caseID(def, st.Idx), only) {
 			continue
 		}
